@@ -92,6 +92,6 @@ CONTRACTS = [
                 'same(MD_OPT("dstTemplate"), dstTemplate))',
         },
         raises={'SystemExit': True},
-        notes=['the report lines (stderr text) are built by filter comprehensions over the same status comparisons as the '
+        notes=['str_subclass_equality', 'the report lines (stderr text) are built by filter comprehensions over the same status comparisons as the '
                'exit status; their text is not decided']),
 ]
